@@ -21,6 +21,7 @@ type C05CLIPlan struct {
 	Shape string    `json:"shape"` // ahead | behind | equal | diverged
 	FF    string    `json:"ff"`    // "", ff, no-ff, ff-only
 	Depth int       `json:"depth"` // extra commits on the moving side (1..3)
+	Fault *Fault    `json:"fault,omitempty"` // an object-store read fails during the merge: refused, or right
 }
 
 func init() {
@@ -33,6 +34,9 @@ func init() {
 			p.Base = SynthSpec{N: Pick(r, []int{1, 3, 8, 30, 255, 256, 300}), NCols: r.Range(2, 4), Seed: r.Uint64()}
 			cols, pk, _ := p.Base.Build()
 			p.E1, p.E2 = genDisjointEdits(r.Sub("edits"), cols, pk, p.Base.N)
+			if r.Chance(0.3) || (p.Shape == "diverged" && r.Chance(0.5)) {
+				p.Fault = &Fault{Op: Pick(r, []string{"get", "get", "read", "any"}), Prefix: Pick(r, []string{"blk/", "blk/", "blk/", "blkidx/", "tbl", "com/", ""}), Nth: r.Range(1, 14), Sticky: r.Chance(0.15)}
+			}
 			return p
 		},
 		Exec: execC05CLI,
@@ -124,11 +128,30 @@ func execC05CLI(t *testing.T, raw json.RawMessage, res *Result) {
 		args = append(args, "--"+p.FF)
 	}
 	n.Clock += time.Hour
+	if p.Fault != nil {
+		p.Fault.seen, p.Fault.Fired = 0, 0
+		n.Objs.Faults = []*Fault{p.Fault}
+	}
 	cr := n.Run(t, args...)
+	n.Objs.Faults = nil
 	if bubbleProblems(res, cr.Out, "wrgl "+strings.Join(args, " ")) {
 		return
 	}
 	refsAfter, _ := n.Refs()
+	if p.Fault != nil && p.Fault.Fired > 0 {
+		res.fault("store_read_error", 1)
+		if cr.Err != nil {
+			// refused because of the read error: main must not have moved
+			if string(refsAfter["heads/main"]) != string(refsBefore["heads/main"]) {
+				res.Violate("failed-merge-moved-branch", "`wrgl %s` failed (%v) after a store read error but main moved", strings.Join(args, " "), cr.Err)
+				return
+			}
+			res.probe("merge_refused_on_read_error", 1)
+			res.Nontrivial = true
+			return
+		}
+		res.probe("merge_succeeded_despite_read_error", 1) // then the result must be right (checked below)
+	}
 	if cr.Err != nil {
 		if p.Shape == "diverged" && p.FF == "ff-only" {
 			if string(refsAfter["heads/main"]) != string(refsBefore["heads/main"]) {
